@@ -267,6 +267,16 @@ func (vc *VC) dynamicCall(st *State, c *ssa.CallCommon, args []Value, fnv Value,
 		return vc.readClock(st)
 	}
 	vc.used["havoc:dynamic-call@"+vc.fn.Name()] = true
+	for i := 0; i < sig.Params().Len(); i++ {
+		if pt, ok := sig.Params().At(i).Type().(*types.Pointer); ok && isNamed(pt.Elem(), badgerLib, "Txn") {
+			// an unknown function that is handed the open transaction may write anything through it
+			for _, n := range kvHeapNames(st) {
+				st.heaps[n] = vc.fresh(n, st.heaps[n].Sort)
+			}
+			vc.note("call of an unknown function value at %s that receives the database transaction: the database state is arbitrary afterwards", pos)
+			return vc.havocResults(st, c, "dyn")
+		}
+	}
 	vc.note("call of an unknown function value at %s: results arbitrary, heap untouched", pos)
 	return vc.havocResults(st, c, "dyn")
 }
@@ -838,6 +848,11 @@ func (vc *VC) callMods(fn *ssa.Function, c *ssa.CallCommon, li *loopInfo, visiti
 		if sig.Params().Len() == 0 && sig.Results().Len() == 1 && isNamed(sig.Results().At(0).Type(), "time", "Time") {
 			return []modTarget{{kind: "clock"}}
 		}
+		for i := 0; i < sig.Params().Len(); i++ {
+			if pt, ok := sig.Params().At(i).Type().(*types.Pointer); ok && isNamed(pt.Elem(), badgerLib, "Txn") {
+				return []modTarget{{kind: "kv"}}
+			}
+		}
 		return nil
 	}
 	name := callee.String()
@@ -868,7 +883,35 @@ func (vc *VC) callMods(fn *ssa.Function, c *ssa.CallCommon, li *loopInfo, visiti
 					}
 				}
 			}
-		case strings.HasSuffix(name, ".hasKey"):
+		case strings.HasSuffix(name, ".hasKey"), strings.HasSuffix(name, ".NewIterator"), strings.HasSuffix(name, ".Close"),
+			strings.HasSuffix(name, ".ValidForPrefix"), strings.HasSuffix(name, ".Item"):
+		case name == "math/rand.Shuffle":
+			if mc, ok := c.Args[1].(*ssa.MakeClosure); ok {
+				if fn, ok := mc.Fn.(*ssa.Function); ok && len(fn.FreeVars) == 1 {
+					if pt, ok := fn.FreeVars[0].Type().Underlying().(*types.Pointer); ok {
+						if sl, ok := pt.Elem().Underlying().(*types.Slice); ok {
+							es := T.SortOf(sl.Elem())
+							out = append(out, modTarget{heap: heapName("HA", es), sort: es, kind: "arr"})
+							return out
+						}
+					}
+				}
+			}
+			out = append(out, modTarget{kind: "all", heap: "rand.Shuffle"})
+		case strings.HasSuffix(name, ".Seek"), strings.HasSuffix(name, ".Next"):
+			out = append(out, modTarget{kind: "kvit"})
+		case strings.HasSuffix(name, ".Key"):
+			out = append(out, modTarget{heap: heapName("HA", sortInt), sort: sortInt, kind: "arr-new"})
+		case strings.HasSuffix(name, ".Value"):
+			if mc, ok := c.Args[1].(*ssa.MakeClosure); ok {
+				for _, b := range mc.Bindings {
+					if _, isPtr := b.Type().Underlying().(*types.Pointer); isPtr {
+						out = append(out, vc.addrTarget(b, li))
+					}
+				}
+			} else {
+				out = append(out, modTarget{kind: "all", heap: "Item.Value with a function value"})
+			}
 		default:
 			out = append(out, modTarget{kind: "kv"})
 		}
